@@ -508,6 +508,28 @@ Theorem c07_ps_last_frame_refuted :
 Proof. eexists. vm_compute. split; reflexivity. Qed.
 Print Assumptions c07_ps_last_frame_refuted.
 
+(* B frames: PES packets with PTS and DTS, the stream in decoding order I P B B P, so the PTS goes DOWN from the
+   P frame (19800) to the B frame behind it (12600).  A frame ends where the PTS changes - not where it grows -,
+   and every NAL unit is stamped with the PTS of its own frame (100, 220, 140, 180 ms); the last frame stays
+   buffered.  The bytes are cut in the middle of the first PES packet. *)
+Definition ex_ps_bframes : bytes :=
+  [0; 0; 1; 186; 68; 0; 4; 0; 4; 1; 1; 137; 195; 248; 0; 0; 1; 187; 0; 12; 128; 4; 225; 4; 225; 127; 224; 224; 128; 192; 192; 8;
+   0; 0; 1; 188; 0; 14; 224; 255; 0; 0; 0; 4; 27; 224; 0; 0; 69; 189; 220; 244;
+   0; 0; 1; 224; 0; 34; 140; 192; 10; 49; 0; 1; 70; 81; 17; 0; 1; 42; 49; 0; 0; 0; 1; 103; 66; 0; 30; 0; 0; 0; 1; 104; 206; 0; 0; 0; 1; 101; 136; 128;
+   0; 0; 1; 224; 0; 20; 140; 192; 10; 49; 0; 1; 154; 177; 17; 0; 1; 70; 81; 0; 0; 0; 1; 65; 154; 2;
+   0; 0; 1; 224; 0; 15; 140; 128; 5; 33; 0; 1; 98; 113; 0; 0; 0; 1; 1; 158; 4;
+   0; 0; 1; 224; 0; 15; 140; 128; 5; 33; 0; 1; 126; 145; 0; 0; 0; 1; 1; 158; 6;
+   0; 0; 1; 224; 0; 20; 140; 192; 10; 49; 0; 1; 239; 17; 17; 0; 1; 154; 177; 0; 0; 0; 1; 65; 154; 8].
+Example c07_ps_bframe_order :
+  exists st', RemuxPsStreamProofs.feed_chunks NetPs.ps_init [(firstn 70 ex_ps_bframes, 5400); (skipn 70 ex_ps_bframes, 9000)]
+    = Ok (st', [NetPs.mk_psev 96 100 100 [0; 0; 0; 1; 103; 66; 0; 30]; NetPs.mk_psev 96 100 100 [0; 0; 0; 1; 104; 206];
+                NetPs.mk_psev 96 100 100 [0; 0; 0; 1; 101; 136; 128];
+                NetPs.mk_psev 96 220 220 [0; 0; 0; 1; 65; 154; 2];
+                NetPs.mk_psev 96 140 140 [0; 0; 0; 1; 1; 158; 4];
+                NetPs.mk_psev 96 180 180 [0; 0; 0; 1; 1; 158; 6]]) /\
+    NetPs.ps_vbuf st' = [0; 0; 0; 1; 65; 154; 8].
+Proof. eexists. vm_compute. split; reflexivity. Qed.
+
 (* the two facts it rests on: a complete element at the head of the buffer is consumed in one
    iteration with the effect [astep] describes, whatever follows it; a proper prefix of an element
    makes FeedRtpBody wait without touching anything (this is what the pack-header fix 446939e restored) *)
